@@ -155,7 +155,7 @@ Built build(const model::MLib& m) {
             Vec2 start = Vec2{user(m, mp.spine[0].x), user(m, mp.spine[0].y)};
             if (mp.impl == 0) {
                 FlexPath* p = (FlexPath*)allocate_clear(sizeof(FlexPath));
-                uint64_t ne = mp.simple ? 1 : (uint64_t)(mp.nelem < 1 ? 1 : mp.nelem);
+                uint64_t ne = (uint64_t)(mp.nelem < 1 ? 1 : mp.nelem);
                 p->init(start, ne, 2 * user(m, mp.hw), user(m, mp.sep), tol, tag);
                 Array<Vec2> pts = {};
                 for (size_t i = 1; i < mp.spine.size(); i++)
@@ -174,7 +174,7 @@ Built build(const model::MLib& m) {
                 c->flexpath_array.append(p);
             } else {
                 RobustPath* p = (RobustPath*)allocate_clear(sizeof(RobustPath));
-                uint64_t ne = mp.simple ? 1 : (uint64_t)(mp.nelem < 1 ? 1 : mp.nelem);
+                uint64_t ne = (uint64_t)(mp.nelem < 1 ? 1 : mp.nelem);
                 p->init(start, ne, 2 * user(m, mp.hw), user(m, mp.sep), tol, 1000, tag);
                 for (size_t i = 1; i < mp.spine.size(); i++)
                     p->segment(Vec2{user(m, mp.spine[i].x), user(m, mp.spine[i].y)}, NULL, NULL,
@@ -359,8 +359,10 @@ struct Gridder {
     canon::IPt g(const Vec2& p) { return canon::IPt{g(p.x), g(p.y)}; }
 };
 
+static bool rep_type_valid(const Repetition& r);
 static std::vector<Vec2> rep_offsets(const Repetition& r) {
     std::vector<Vec2> o;
+    if (!rep_type_valid(r)) return {Vec2{0, 0}};  // reported by the caller as an INVALID repetition
     switch (r.type) {
         case RepetitionType::None: o.push_back(Vec2{0, 0}); break;
         case RepetitionType::Rectangular:
@@ -393,9 +395,11 @@ static std::vector<Vec2> rep_offsets(const Repetition& r) {
 
 static bool rep_type_valid(const Repetition& r) {
     switch (r.type) {
-        case RepetitionType::None:
         case RepetitionType::Rectangular:
         case RepetitionType::Regular:
+            // counts no file can have produced (a negative 16-bit count read as unsigned, say)
+            return r.columns <= 100000000 && r.rows <= 100000000 && r.columns * r.rows <= 100000000;
+        case RepetitionType::None:
         case RepetitionType::Explicit:
         case RepetitionType::ExplicitX:
         case RepetitionType::ExplicitY:
@@ -438,7 +442,7 @@ canon::CLib extract(const Library& lib, const ExtractOptions& opt) {
         if (rit != opt.region_tags.end()) rt = &rit->second;
         for (uint64_t i = 0; i < cell->polygon_array.count; i++) {
             const Polygon* p = cell->polygon_array[i];
-            if (!rep_type_valid(p->repetition)) cc.polys.push_back("INVALID repetition type in a loaded polygon (uninitialised field?)");
+            if (!rep_type_valid(p->repetition)) cc.polys.push_back("INVALID repetition (type or counts) in a loaded polygon");
             std::vector<canon::IPt> pts;
             for (uint64_t k = 0; k < p->point_array.count; k++) pts.push_back(G.g(p->point_array[k]));
             if (rt && rt->count(p->tag)) {
@@ -469,7 +473,7 @@ canon::CLib extract(const Library& lib, const ExtractOptions& opt) {
                 continue;
             }
             const FlexPathElement* el = p->elements;
-            if (!rep_type_valid(p->repetition)) cc.paths.push_back("INVALID repetition type in a loaded path (uninitialised field?)");
+            if (!rep_type_valid(p->repetition)) cc.paths.push_back("INVALID repetition (type or counts) in a loaded path");
             std::vector<canon::IPt> sp;
             for (uint64_t k = 0; k < p->spine.point_array.count; k++)
                 sp.push_back(G.g(p->spine.point_array[k]));
@@ -507,7 +511,7 @@ canon::CLib extract(const Library& lib, const ExtractOptions& opt) {
             cc.paths.push_back("UNEXPECTED robustpath in loaded cell");
         for (uint64_t i = 0; i < cell->label_array.count; i++) {
             const Label* l = cell->label_array[i];
-            if (!rep_type_valid(l->repetition)) cc.labels.push_back("INVALID repetition type in a loaded label (uninitialised field?)");
+            if (!rep_type_valid(l->repetition)) cc.labels.push_back("INVALID repetition (type or counts) in a loaded label");
             cc.labels.push_back(canon::label_line(
                 mode, get_layer(l->tag), get_type(l->tag), l->text ? l->text : "", G.g(l->origin),
                 (int)l->anchor, l->rotation * (180.0 / M_PI), l->magnification, l->x_reflection,
@@ -515,7 +519,7 @@ canon::CLib extract(const Library& lib, const ExtractOptions& opt) {
         }
         for (uint64_t i = 0; i < cell->reference_array.count; i++) {
             const Reference* r = cell->reference_array[i];
-            if (!rep_type_valid(r->repetition)) cc.refs.push_back("INVALID repetition type in a loaded reference (uninitialised field?)");
+            if (!rep_type_valid(r->repetition)) cc.refs.push_back("INVALID repetition (type or counts) in a loaded reference");
             std::string target;
             switch (r->type) {
                 case ReferenceType::Cell: target = r->cell && r->cell->name ? r->cell->name : ""; break;
